@@ -71,6 +71,21 @@ def bool_switches(fn, P):
             # arm's edge (arms shared by several values share the edge); every other edge implies x != value
             e = P.operand(t['op'], b, len(bl['stmts']))
             es = strip(e)
+            if es.k == 'discr' and es.args:
+                # `cond.then_some(v).ok_or(err)?` (also `.then(..)`, `ok_or_else`, and `if cond { Ok(..) } else { Err(..) }?` folded
+                # by the provenance): the Continue edge (discriminant 0) is taken exactly when cond holds
+                x = strip(es.args[0])
+                if x.k == 'call' and last(x.name or '') == 'branch' and len(x.args) == 1:
+                    y = strip(x.args[0])
+                    if y.k == 'call' and last(y.name or '') in ('ok_or', 'ok_or_else') and y.args:
+                        z = strip(y.args[0])
+                        if z.k == 'call' and last(z.name or '') in ('then_some', 'then') and z.args and '<impl bool>' in (z.name or ''):
+                            p = classify(z.args[0])
+                            cont = [tb for v, tb in t['targets'] if str(v) == '0']
+                            brk = [tb for v, tb in t['targets'] if str(v) == '1']
+                            if cont and brk:
+                                yield b, p, [(b, cont[0])], [(b, brk[0])]
+                continue
             if es.k in ('discr',) or (es.k == 'call' and last(es.name) == 'discriminant'):
                 continue
             for v, tb in t['targets']:
